@@ -8,6 +8,18 @@
 // Semantics of the output: coq/lib/GoSem.v (machine integers as Z with explicit wrap-around,
 // Panic for division by zero / index out of range / negative shift count / explicit panics,
 // OutOfFuel for loops cut by the fuel). See the header written into every Gen.v.
+//
+// Round 2 extensions of the subset (each strict, anything else is still rejected):
+//   - slices of bool and of spec structs: s[i] is `nth (Z.to_nat i) s <zero value>` under the same index guard;
+//   - `nil` where a slice is expected is the empty list;
+//   - composite literals `T{f: e, ...}` of spec structs (keyed fields only, missing fields = zero value) and
+//     assignment to a field of a LOCAL struct variable (`x.f = e`, `x.f--`, `x.f += e`): the variable is rebuilt
+//     with the constructor; a field of a parameter/receiver can not be assigned (it would be visible to the caller);
+//   - function values: a parameter of type `func(T1, ..) R` (spec type text `func(T1,..)R`) is a Gallina function
+//     `T1 -> .. -> outcome R`; calling it binds its outcome. A function literal is translated to
+//     `fun x => <monadic body>`; its body may not contain loops and may not assign a captured variable;
+//   - externs with `"monadic": true` in the spec return `outcome T` (e.g. sort.Search -> sort_Search n pred, a
+//     model-side binary search in the property's GenPrelude.v that propagates a panic of the predicate).
 package main
 
 import (
@@ -29,10 +41,11 @@ import (
 // ----------------------------------------------------------------------------- spec
 
 type ExternSpec struct {
-	Coq  string   `json:"coq"`  // name of the definition in the hand-written prelude
-	Args []string `json:"args"` // Go types of the arguments (receiver excluded)
-	Ret  string   `json:"ret"`  // Go type of the result
-	Note string   `json:"note"`
+	Coq     string   `json:"coq"`  // name of the definition in the hand-written prelude
+	Args    []string `json:"args"` // Go types of the arguments (receiver excluded)
+	Ret     string   `json:"ret"`  // Go type of the result
+	Note    string   `json:"note"`
+	Monadic bool     `json:"monadic"` // the Coq definition returns `outcome <ret>` (it can panic / run out of fuel)
 }
 
 type GlobalSpec struct {
@@ -91,6 +104,7 @@ const (
 	KTuple
 	KLens   // element of a [][]byte:lens slice: only len(x) may be taken
 	KOpaque // a value that is only moved around, never inspected
+	KFunc   // function value: Elems = parameter types, Elem = result type; Gallina `T1 -> .. -> outcome R`
 )
 
 type Type struct {
@@ -108,7 +122,7 @@ var builtinInts = map[string]*Type{
 	"int": {Kind: KInt, Bits: 64, Signed: true, Base: "int"}, "int64": {Kind: KInt, Bits: 64, Signed: true, Base: "int64"},
 	"int32": {Kind: KInt, Bits: 32, Signed: true, Base: "int32"}, "int16": {Kind: KInt, Bits: 16, Signed: true, Base: "int16"},
 	"int8": {Kind: KInt, Bits: 8, Signed: true, Base: "int8"},
-	"uint":  {Kind: KInt, Bits: 64, Base: "uint"}, "uint64": {Kind: KInt, Bits: 64, Base: "uint64"},
+	"uint": {Kind: KInt, Bits: 64, Base: "uint"}, "uint64": {Kind: KInt, Bits: 64, Base: "uint64"},
 	"uint32": {Kind: KInt, Bits: 32, Base: "uint32"}, "uint16": {Kind: KInt, Bits: 16, Base: "uint16"},
 	"uint8": {Kind: KInt, Bits: 8, Base: "uint8"}, "byte": {Kind: KInt, Bits: 8, Base: "uint8"},
 }
@@ -134,6 +148,12 @@ func (t *Type) key() string {
 			s = append(s, e.key())
 		}
 		return "(" + strings.Join(s, ",") + ")"
+	case KFunc:
+		s := []string{}
+		for _, e := range t.Elems {
+			s = append(s, e.key())
+		}
+		return "func(" + strings.Join(s, ",") + ")" + t.Elem.key()
 	}
 	return t.Name
 }
@@ -159,6 +179,12 @@ func (t *Type) coq() string {
 			return "unit"
 		}
 		return "(" + strings.Join(s, " * ") + ")%type"
+	case KFunc:
+		s := ""
+		for _, e := range t.Elems {
+			s += paren(e.coq()) + " -> "
+		}
+		return "(" + s + "outcome " + paren(t.Elem.coq()) + ")"
 	}
 	return "?"
 }
@@ -211,18 +237,18 @@ func (t *Type) wrap(code string) string { return t.wrapName() + " " + paren(code
 // ----------------------------------------------------------------------------- translator state
 
 type Translated struct {
-	Spec     FuncSpec
-	CoqName  string
-	Params   []param // translated parameters (receiver first), ignored ones dropped
-	Ret      *Type
-	Monadic  bool
-	Fuel     bool
-	Globals  []param
-	Text     string
-	File     string
-	Sha      string
-	Externs  []string
-	Skipped  []string
+	Spec    FuncSpec
+	CoqName string
+	Params  []param // translated parameters (receiver first), ignored ones dropped
+	Ret     *Type
+	Monadic bool
+	Fuel    bool
+	Globals []param
+	Text    string
+	File    string
+	Sha     string
+	Externs []string
+	Skipped []string
 }
 
 type param struct {
@@ -310,13 +336,31 @@ func (g *G) resolveType(s string, at ast.Node) *Type {
 	}
 	if strings.HasPrefix(s, "[]") {
 		e := g.resolveType(s[2:], at)
-		if e.Kind != KInt && e.Kind != KOpaque {
-			failAt(at, "unsupported slice element type %s (numeric or opaque elements only)", s[2:])
+		if e.Kind != KInt && e.Kind != KOpaque && e.Kind != KBool && e.Kind != KStruct {
+			failAt(at, "unsupported slice element type %s (numeric, bool, spec struct or opaque elements only)", s[2:])
 		}
 		return &Type{Kind: KSlice, Elem: e}
 	}
 	if strings.HasPrefix(s, "extern:") {
 		return &Type{Kind: KExtern, Coq: s[7:]}
+	}
+	if strings.HasPrefix(s, "func(") { // func(T1,T2)R
+		i := strings.Index(s, ")")
+		if i < 0 || i == len(s)-1 {
+			failAt(at, "unsupported function type %q (exactly one result is required)", s)
+		}
+		ft := &Type{Kind: KFunc, Elem: g.resolveType(strings.TrimSpace(s[i+1:]), at)}
+		if in := strings.TrimSpace(s[5:i]); in != "" {
+			for _, a := range strings.Split(in, ",") {
+				ft.Elems = append(ft.Elems, g.resolveType(strings.TrimSpace(a), at))
+			}
+		}
+		for _, e := range append(append([]*Type{}, ft.Elems...), ft.Elem) {
+			if e.Kind != KInt && e.Kind != KBool {
+				failAt(at, "unsupported function type %q (integer/boolean parameters and result only)", s)
+			}
+		}
+		return ft
 	}
 	if i := strings.LastIndex(s, "."); i >= 0 { // pkg.Name -> Name
 		bare := s[i+1:]
@@ -365,6 +409,21 @@ func typeString(e ast.Expr) string {
 		return "[]" + typeString(t.Elt)
 	case *ast.ParenExpr:
 		return typeString(t.X)
+	case *ast.FuncType:
+		if t.TypeParams != nil || t.Results == nil || len(t.Results.List) != 1 || len(t.Results.List[0].Names) > 1 {
+			failAt(e, "unsupported construct: function type without exactly one result")
+		}
+		as := []string{}
+		for _, f := range t.Params.List {
+			n := len(f.Names)
+			if n == 0 {
+				n = 1
+			}
+			for i := 0; i < n; i++ {
+				as = append(as, typeString(f.Type))
+			}
+		}
+		return "func(" + strings.Join(as, ",") + ")" + typeString(t.Results.List[0].Type)
 	}
 	failAt(e, "unsupported construct: type expression %T", e)
 	return ""
@@ -560,6 +619,7 @@ type fn struct {
 	rets    []*Type
 	externs map[string]bool
 	skipped map[string]bool
+	params  map[string]bool // names of the parameters and the receiver (their fields can not be assigned)
 }
 
 func (fx *fn) fresh(prefix string) string {
@@ -723,7 +783,12 @@ func (fx *fn) expr(e ast.Expr, env *Env, hint *Type) Val {
 			return boolVal(true)
 		case "false":
 			return boolVal(false)
-		case "iota", "nil":
+		case "nil":
+			if hint != nil && hint.Kind == KSlice {
+				return Val{Code: "[]", T: hint}
+			}
+			failAt(e, "unsupported construct: nil (only where a slice is expected)")
+		case "iota":
 			failAt(e, "unsupported construct: %s", x.Name)
 		}
 		if v, ok := fx.pkgConst(fx.pkg, x.Name, e, 0); ok {
@@ -740,8 +805,8 @@ func (fx *fn) expr(e ast.Expr, env *Env, hint *Type) Val {
 		return fx.call(x, env, hint)
 	case *ast.IndexExpr:
 		s := fx.expr(x.X, env, nil)
-		if s.T == nil || s.T.Kind != KSlice || s.T.Elem.Kind != KInt {
-			failAt(e, "unsupported construct: index on %s (only slices of numeric type)", s.T.key())
+		if s.T == nil || s.T.Kind != KSlice || (s.T.Elem.Kind != KInt && s.T.Elem.Kind != KBool && s.T.Elem.Kind != KStruct) {
+			failAt(e, "unsupported construct: index on %s (only slices of numeric, bool or spec struct type)", s.T.key())
 		}
 		i := fx.expr(x.Index, env, nil)
 		i = fx.toType(i, orInt(i.T), e)
@@ -750,7 +815,14 @@ func (fx *fn) expr(e ast.Expr, env *Env, hint *Type) Val {
 		}
 		cond := fmt.Sprintf("(%s <? 0) || (len %s <=? %s)", paren(i.Code), paren(s.Code), paren(i.Code))
 		fx.pre = append(fx.pre, Pre{guard: true, Cond: cond, Why: "index out of range"})
+		if s.T.Elem.Kind != KInt {
+			return Val{Code: fmt.Sprintf("nth (Z.to_nat %s) %s %s", paren(i.Code), paren(s.Code), paren(fx.g.zeroValue(s.T.Elem, e))), T: s.T.Elem}
+		}
 		return Val{Code: fmt.Sprintf("idx %s %s", paren(s.Code), paren(i.Code)), T: s.T.Elem}
+	case *ast.CompositeLit:
+		return fx.compositeLit(x, env)
+	case *ast.FuncLit:
+		return fx.funcLit(x, env)
 	case *ast.SliceExpr:
 		if x.Slice3 {
 			failAt(e, "unsupported construct: 3-index slice")
@@ -776,6 +848,128 @@ func (fx *fn) expr(e ast.Expr, env *Env, hint *Type) Val {
 	}
 	failAt(e, "unsupported construct: expression %T", e)
 	return Val{}
+}
+
+// zeroValue is the Gallina text of Go's zero value of t
+func (g *G) zeroValue(t *Type, at ast.Node) string {
+	switch t.Kind {
+	case KInt:
+		return "0"
+	case KBool:
+		return "false"
+	case KSlice:
+		return "[]"
+	case KStruct:
+		s := "mk_go_" + t.Name
+		for _, f := range g.structs[t.Name].Fields {
+			s += " " + paren(g.zeroValue(g.resolveType(f[1], at), at))
+		}
+		return s
+	}
+	failAt(at, "unsupported construct: zero value of %s", t.key())
+	return ""
+}
+
+// compositeLit: T{f: e, ...} of a spec struct, keyed fields only; missing fields take the zero value
+func (fx *fn) compositeLit(x *ast.CompositeLit, env *Env) Val {
+	if x.Type == nil {
+		failAt(x, "unsupported construct: composite literal without a type")
+	}
+	t := fx.g.resolveType(typeString(x.Type), x)
+	if t.Kind != KStruct {
+		failAt(x, "unsupported construct: composite literal of %s (spec structs only)", t.key())
+	}
+	st := fx.g.structs[t.Name]
+	vals := map[string]string{}
+	for _, el := range x.Elts {
+		kv, ok := el.(*ast.KeyValueExpr)
+		if !ok {
+			failAt(el, "unsupported construct: positional field in a composite literal")
+		}
+		id, ok := kv.Key.(*ast.Ident)
+		if !ok {
+			failAt(el, "unsupported construct: composite literal key %T", kv.Key)
+		}
+		var ft *Type
+		for _, f := range st.Fields {
+			if f[0] == id.Name {
+				ft = fx.g.resolveType(f[1], el)
+			}
+		}
+		if ft == nil {
+			failAt(el, "field %s.%s is not in the spec's field list", st.Name, id.Name)
+		}
+		if _, dup := vals[id.Name]; dup {
+			failAt(el, "duplicate field %s in a composite literal", id.Name)
+		}
+		v := fx.expr(kv.Value, env, ft)
+		v = fx.toType(v, ft, el)
+		vals[id.Name] = v.Code
+	}
+	code := "mk_go_" + st.Name
+	for _, f := range st.Fields {
+		if c, ok := vals[f[0]]; ok {
+			code += " " + paren(c)
+		} else {
+			code += " " + paren(fx.g.zeroValue(fx.g.resolveType(f[1], x), x))
+		}
+	}
+	return Val{Code: code, T: t}
+}
+
+// funcLit: func(x T, ..) R { body } as `fun x .. => <monadic body>`. No loops, no assignment to a captured variable.
+func (fx *fn) funcLit(x *ast.FuncLit, env *Env) Val {
+	ft := fx.g.resolveType(typeString(x.Type), x)
+	bad := ""
+	ast.Inspect(x.Body, func(n ast.Node) bool {
+		switch n.(type) {
+		case *ast.ForStmt, *ast.RangeStmt:
+			bad = "a loop"
+		case *ast.FuncLit:
+			bad = "a nested function literal"
+		case *ast.GoStmt, *ast.DeferStmt:
+			bad = "go/defer"
+		}
+		return bad == ""
+	})
+	if bad != "" {
+		failAt(x, "unsupported construct: %s inside a function literal", bad)
+	}
+	set := map[string]bool{}
+	assigned(x.Body, set)
+	for n := range set {
+		if env.lookup(n) != nil {
+			failAt(x, "unsupported construct: function literal assigns the captured variable %s", n)
+		}
+	}
+	benv := env
+	binders := ""
+	i := 0
+	for _, f := range x.Type.Params.List {
+		if len(f.Names) == 0 {
+			failAt(x, "unsupported construct: unnamed parameter of a function literal")
+		}
+		for _, n := range f.Names {
+			if n.Name == "_" {
+				binders += " _"
+			} else {
+				benv = fx.define(n.Name, ft.Elems[i], benv, x)
+				binders += fmt.Sprintf(" (%s : %s)", cname(n.Name), ft.Elems[i].coq())
+			}
+			i++
+		}
+	}
+	savePre, saveRet, saveRets := fx.pre, fx.ret, fx.rets
+	fx.pre, fx.ret, fx.rets = nil, ft.Elem, []*Type{ft.Elem}
+	body := fx.block(x.Body.List, benv, &ctx{ret: func(v string) Term { return TRet{v} }}, func(*Env) Term {
+		failAt(x, "unsupported construct: control can reach the end of a function literal without a return")
+		return nil
+	})
+	if len(fx.pre) != 0 {
+		failAt(x, "internal: pending checked operations after a function literal")
+	}
+	fx.pre, fx.ret, fx.rets = savePre, saveRet, saveRets
+	return Val{Code: "(fun" + binders + " =>\n" + printTerm(body, true, 4) + ")", T: ft}
 }
 
 func orInt(t *Type) *Type {
@@ -1232,6 +1426,11 @@ func (fx *fn) callExtern(key string, es *ExternSpec, recv *Val, argExprs []ast.E
 		parts = append(parts, paren(v.Code))
 	}
 	fx.externs[key+" -> "+es.Coq] = true
+	if es.Monadic {
+		tmp := fx.fresh("r")
+		fx.pre = append(fx.pre, Pre{Pat: tmp, M: strings.Join(parts, " ")})
+		return Val{Code: tmp, T: fx.g.resolveType(es.Ret, at)}
+	}
 	return Val{Code: strings.Join(parts, " "), T: fx.g.resolveType(es.Ret, at)}
 }
 
@@ -1265,8 +1464,22 @@ func (fx *fn) call(x *ast.CallExpr, env *Env, hint *Type) Val {
 	case *ast.ParenExpr:
 		failAt(x, "unsupported construct: call of a parenthesised expression")
 	case *ast.Ident:
-		if env.lookup(f.Name) != nil {
-			failAt(x, "unsupported construct: call of a function value %s", f.Name)
+		if ft := env.lookup(f.Name); ft != nil {
+			if ft.Kind != KFunc {
+				failAt(x, "unsupported construct: call of %s which is not a function value", f.Name)
+			}
+			if len(x.Args) != len(ft.Elems) {
+				failAt(x, "call of %s with %d arguments, its type has %d", f.Name, len(x.Args), len(ft.Elems))
+			}
+			parts := []string{cname(f.Name)}
+			for i, a := range x.Args {
+				v := fx.expr(a, env, ft.Elems[i])
+				v = fx.toType(v, ft.Elems[i], x)
+				parts = append(parts, paren(v.Code))
+			}
+			tmp := fx.fresh("r")
+			fx.pre = append(fx.pre, Pre{Pat: tmp, M: strings.Join(parts, " ")})
+			return Val{Code: tmp, T: ft.Elem}
 		}
 		switch f.Name {
 		case "len":
@@ -1427,10 +1640,20 @@ func assigned(n ast.Node, into map[string]bool) {
 				if id, ok := l.(*ast.Ident); ok {
 					into[id.Name] = true
 				}
+				if se, ok := l.(*ast.SelectorExpr); ok {
+					if id, ok := se.X.(*ast.Ident); ok {
+						into[id.Name] = true
+					}
+				}
 			}
 		case *ast.IncDecStmt:
 			if id, ok := s.X.(*ast.Ident); ok {
 				into[id.Name] = true
+			}
+			if se, ok := s.X.(*ast.SelectorExpr); ok {
+				if id, ok := se.X.(*ast.Ident); ok {
+					into[id.Name] = true
+				}
 			}
 		}
 		return true
@@ -1492,6 +1715,9 @@ func (fx *fn) define(name string, t *Type, env *Env, at ast.Node) *Env {
 }
 
 func (fx *fn) assign(lhs ast.Expr, rhs ast.Expr, def bool, env *Env, at ast.Node, k func(*Env) Term) Term {
+	if se, isSel := lhs.(*ast.SelectorExpr); isSel && !def {
+		return fx.assignField(se, rhs, env, at, k)
+	}
 	id, ok := lhs.(*ast.Ident)
 	if !ok {
 		failAt(at, "unsupported construct: assignment to %T (only local variables can be assigned)", lhs)
@@ -1515,6 +1741,9 @@ func (fx *fn) assign(lhs ast.Expr, rhs ast.Expr, def bool, env *Env, at ast.Node
 		if v.T.Kind == KTuple {
 			failAt(at, "assignment count mismatch")
 		}
+		if v.T.Kind == KFunc {
+			failAt(at, "unsupported construct: function value stored in a variable (function literals only as call arguments)")
+		}
 		env = fx.define(id.Name, v.T, env, at)
 	} else if id.Name != "_" {
 		v = fx.toType(v, hint, at)
@@ -1524,6 +1753,43 @@ func (fx *fn) assign(lhs ast.Expr, rhs ast.Expr, def bool, env *Env, at ast.Node
 		return wrapPre(pre, k(env))
 	}
 	return wrapPre(pre, TLet{cname(id.Name), v.Code, k(env)})
+}
+
+// assignField: x.f = e for a LOCAL variable x of a spec struct type: x is rebuilt with the constructor
+func (fx *fn) assignField(se *ast.SelectorExpr, rhs ast.Expr, env *Env, at ast.Node, k func(*Env) Term) Term {
+	id, ok := se.X.(*ast.Ident)
+	if !ok {
+		failAt(at, "unsupported construct: assignment to a nested field")
+	}
+	t := env.lookup(id.Name)
+	if t == nil || t.Kind != KStruct {
+		failAt(at, "unsupported construct: assignment to a field of %s which is not a local struct variable", id.Name)
+	}
+	if fx.params[id.Name] {
+		failAt(at, "unsupported construct: assignment to a field of the parameter/receiver %s (visible to the caller)", id.Name)
+	}
+	st := fx.g.structs[t.Name]
+	var ft *Type
+	for _, f := range st.Fields {
+		if f[0] == se.Sel.Name {
+			ft = fx.g.resolveType(f[1], at)
+		}
+	}
+	if ft == nil {
+		failAt(at, "field %s.%s is not in the spec's field list", st.Name, se.Sel.Name)
+	}
+	v := fx.expr(rhs, env, ft)
+	v = fx.toType(v, ft, at)
+	pre := fx.takePre()
+	code := "mk_go_" + st.Name
+	for _, f := range st.Fields {
+		if f[0] == se.Sel.Name {
+			code += " " + paren(v.Code)
+		} else {
+			code += fmt.Sprintf(" (go_%s_%s %s)", st.Name, f[0], cname(id.Name))
+		}
+	}
+	return wrapPre(pre, TLet{cname(id.Name), code, k(env)})
 }
 
 var opOfAssign = map[token.Token]token.Token{
@@ -1906,7 +2172,7 @@ func (g *G) translate(fs FuncSpec) *Translated {
 	text := src[fset.Position(decl.Pos()).Offset:fset.Position(decl.End()).Offset]
 	out.Sha = fmt.Sprintf("%x", sha256.Sum256(text))
 	fx := &fn{g: g, pkg: p, file: file, imports: importsOf(file), decl: decl, out: out, lconsts: map[string]Val{},
-		externs: map[string]bool{}, skipped: map[string]bool{}}
+		externs: map[string]bool{}, skipped: map[string]bool{}, params: map[string]bool{}}
 	env := &Env{}
 	// globals read by this function become leading parameters
 	gkeys := []string{}
@@ -1966,14 +2232,12 @@ func (g *G) translate(fs FuncSpec) *Translated {
 			}
 			ts = o
 		}
-		if _, isFunc := te.(*ast.FuncType); isFunc {
-			failAt(te, "unsupported construct: function-typed parameter %s", name)
-		}
 		t := g.resolveType(ts, te)
 		if env.lookup(name) != nil {
 			failAt(te, "duplicate parameter name %s", name)
 		}
 		env = env.with(name, t)
+		fx.params[name] = true
 		out.Params = append(out.Params, param{name, t})
 	}
 	if decl.Recv != nil {
@@ -1990,9 +2254,6 @@ func (g *G) translate(fs FuncSpec) *Translated {
 		if _, ok := f.Type.(*ast.Ellipsis); ok {
 			failAt(f, "unsupported construct: variadic parameter")
 		}
-		if _, ok := f.Type.(*ast.FuncType); ok {
-			failAt(f, "unsupported construct: function-typed parameter")
-		}
 		for _, n := range f.Names {
 			addParam(n.Name, f.Type)
 		}
@@ -2006,7 +2267,11 @@ func (g *G) translate(fs FuncSpec) *Translated {
 			n = 1
 		}
 		for i := 0; i < n; i++ {
-			fx.rets = append(fx.rets, g.resolveType(typeString(f.Type), f))
+			rt := g.resolveType(typeString(f.Type), f)
+			if rt.Kind == KFunc {
+				failAt(f, "unsupported construct: function-typed result")
+			}
+			fx.rets = append(fx.rets, rt)
 		}
 	}
 	if len(fx.rets) == 1 {
